@@ -87,7 +87,8 @@ pub mod asm {
     #[verifier::external_body]
     pub struct Function { _p: u8 }
     #[verifier::external_body]
-    pub struct InstructionMatches { _p: u8 }
+    pub struct InstructionMatch { _p: u8 }
+    pub type InstructionMatches = Vec<InstructionMatch>;
     #[verifier::external_body]
     pub struct ItemDecls { _p: u8 }
     //@@ITEMS asm
